@@ -36,6 +36,7 @@ pub struct TrkCtx {
     /// per scene: canonical record stream (ids renamed by first appearance within the scene)
     pub log: HashMap<u64, Vec<String>>,
     pub log_ids: HashMap<u64, Vec<String>>,
+    pub consumer_delay_us: u64,
     pub rename: HashMap<u64, HashMap<u64, usize>>,
 }
 
@@ -112,6 +113,26 @@ fn log_records(c: &mut TrkCtx, scene: u64, recs: &[SortTrack]) {
         ));
     }
     log.push(line);
+}
+
+/// ` EV nthreads (len (kind arg)*)*`: the logged protocol events grouped by thread, in each thread's own order
+fn show_events() -> String {
+    let ev = crate::sched::EVENTS.lock().unwrap().clone();
+    let mut threads: Vec<u64> = Vec::new();
+    for e in &ev {
+        if !threads.contains(&e.0) {
+            threads.push(e.0);
+        }
+    }
+    let mut s = format!(" EV {}", threads.len());
+    for th in threads {
+        let mine: Vec<_> = ev.iter().filter(|e| e.0 == th).collect();
+        s.push_str(&format!(" {}", mine.len()));
+        for e in mine {
+            s.push_str(&format!(" {} {}", e.1, e.2));
+        }
+    }
+    s
 }
 
 fn show_records(c: &TrkCtx, dets: &[DetIn], recs: &[SortTrack]) -> String {
@@ -312,6 +333,7 @@ pub fn exec(ctx: &mut Ctx, t: &mut Toks) -> String {
                 scenes.push((scene, dets));
             }
             let mut out = String::new();
+            let mut trace_suffix = String::new();
             let mut tr = std::mem::take(&mut c.t);
             match &mut tr {
                 Trk::Sort(s) => {
@@ -333,11 +355,28 @@ pub fn exec(ctx: &mut Ctx, t: &mut Toks) -> String {
                             req.add(*scene, (d.bbox.clone(), d.custom));
                         }
                     }
+                    crate::sched::EVENTS.lock().unwrap().clear();
                     s.predict(req);
                     let mut got: Vec<(u64, Vec<SortTrack>)> = Vec::new();
-                    for _ in 0..res.batch_size() {
-                        got.push(res.get());
+                    if c.consumer_delay_us > 0 {
+                        // a slow consumer: with the bounded(1) channel at most one result can have been sent meanwhile
+                        std::thread::sleep(std::time::Duration::from_micros(c.consumer_delay_us));
+                        crate::sched::log_event('P', crate::sched::sent_so_far());
                     }
+                    for _ in 0..res.batch_size() {
+                        let r = res.get();
+                        crate::sched::log_event('R', r.0);
+                        got.push(r);
+                    }
+                    // the monitor decrements may still be in flight: wait for them before reading the log
+                    for _ in 0..200 {
+                        let done = crate::sched::EVENTS.lock().unwrap().iter().filter(|e| e.1 == 'M').count();
+                        if done >= got.len() {
+                            break;
+                        }
+                        std::thread::sleep(std::time::Duration::from_micros(200));
+                    }
+                    trace_suffix = show_events();
                     got.sort_by_key(|e| e.0);
                     for (scene, recs) in got {
                         let dets = &scenes.iter().find(|e| e.0 == scene).map(|e| e.1.clone()).unwrap_or_default();
@@ -349,7 +388,12 @@ pub fn exec(ctx: &mut Ctx, t: &mut Toks) -> String {
                 Trk::None => out.push_str("NO-TRACKER"),
             }
             c.t = tr;
+            out.push_str(&trace_suffix);
             out
+        }
+        "consumer" => {
+            c.consumer_delay_us = t.u64();
+            "OK".into()
         }
         op => {
             let mut tr = std::mem::take(&mut c.t);
